@@ -22,16 +22,24 @@ var CollateFuncs = map[string]func(string, string) int{
 		)
 	},
 	"nocase": func(a, b string) int {
-		lc := func(r rune) rune {
-			if r >= 'A' && r <= 'Z' {
-				return rune(strings.ToLower(string(r))[0])
+		// bytewise, with only the ASCII letters folded. The strings don't need
+		// to be valid UTF-8.
+		for i := 0; i < len(a) && i < len(b); i++ {
+			ca, cb := a[i], b[i]
+			if ca >= 'A' && ca <= 'Z' {
+				ca += 'a' - 'A'
 			}
-			return r
+			if cb >= 'A' && cb <= 'Z' {
+				cb += 'a' - 'A'
+			}
+			if ca != cb {
+				if ca < cb {
+					return -1
+				}
+				return 1
+			}
 		}
-		return strings.Compare(
-			strings.Map(lc, a),
-			strings.Map(lc, b),
-		)
+		return cmpInt64(int64(len(a)), int64(len(b)))
 	},
 }
 
